@@ -13,7 +13,7 @@ O: PyCdlib().open_fp(CountingFile(BytesIO(img))) returns, or raises a subclass o
    PyCdlibException; anything else is a violation bucketed by (type, innermost /repo frame).
    Termination/memory: the CountingFile raises WorkExceeded once bytes read exceed
    64 * len(img) + 64 MiB or read calls exceed 64 * sectors + 100000 (deterministic); workers run
-   under RLIMIT_AS (MemoryError is a violation) and a 30 s alarm catches loops that do not read.
+   under RLIMIT_AS (MemoryError is a violation) and a budget of 30 s of CPU time (ITIMER_VIRTUAL, independent of machine load) catches loops that do not read.
 """
 import io
 import json
@@ -42,7 +42,7 @@ RULE = ('cases = (base image, patch list) decoded to bytes; bases are valid imag
         'base (read log), or the image is truncated inside that region. Distinct = distinct (base, patches) pairs.')
 ASSUMPTIONS = [
     'the documented exception types are the subclasses of pycdlib.pycdlibexception.PyCdlibException',
-    'work bound: 64 x image size + 64 MiB bytes read, 64 x sectors + 100000 read calls; 30 s wall alarm (re-run once before reporting); RLIMIT_AS 4 GiB',
+    'work bound: 64 x image size + 64 MiB bytes read, 64 x sectors + 100000 read calls; 30 s of CPU time (ITIMER_VIRTUAL; re-run once before reporting); RLIMIT_AS 4 GiB',
 ]
 SHARDS = {'quick': 16, 'thorough': 16}
 CASES = {'quick': 3000, 'thorough': 40000}
@@ -452,6 +452,14 @@ def open_one(data):
     fp = CountingFile(data)
     fp.like_os_file = bool(zlib.crc32(data) & 1)
     iso = pycdlib.PyCdlib()
+    if zlib.crc32(data) & 6 == 2 and _WARM:
+        # the object has had another (valid, larger) image open before: close() documents that it can be used again, and
+        # nothing it remembers of the earlier image may matter for this one
+        try:
+            iso.open_fp(PaddedFile(_WARM[0]))
+            iso.close()
+        except Exception:   # noqa  (not the subject here)
+            iso = pycdlib.PyCdlib()
     try:
         iso.open_fp(fp)
     except pex.PyCdlibException:
@@ -473,6 +481,39 @@ def open_one(data):
     return None
 
 
+_WARM = []     # [bytes of the largest base image], filled by the shard
+
+
+class PaddedFile(io.RawIOBase):
+    """A valid image followed by (virtual) zeros up to 1 TiB: a large medium that holds a small volume."""
+    SIZE = 1 << 40
+
+    def __init__(self, data):
+        super().__init__()
+        self.data, self.pos = data, 0
+
+    def readable(self):
+        return True
+
+    def seekable(self):
+        return True
+
+    def seek(self, off, whence=0):
+        self.pos = off if whence == 0 else (self.pos + off if whence == 1 else self.SIZE + off)
+        return self.pos
+
+    def tell(self):
+        return self.pos
+
+    def read(self, n=-1):
+        if n is None or n < 0 or n > (1 << 24):
+            n = 1 << 24
+        d = self.data[self.pos:self.pos + n]
+        d += bytes(max(0, min(n, self.SIZE - self.pos) - len(d)))
+        self.pos += len(d)
+        return d
+
+
 def where(e):
     s = exc_signature(e)
     return s.split('@', 1)[1] if '@' in s else s
@@ -483,6 +524,8 @@ def _alarm(signum, frame):
 
 
 def run_case(case, col, bl):
+    if not _WARM:
+        _WARM.append(min((b['img'] for b in bl), key=len))        # (the smallest: it is opened once more per case)
     bi, patches = case
     base = bl[resolve_base(bi, patches, bl)]
     data, touched, desc = apply_patches(base, [tuple(p) for p in patches])
@@ -491,16 +534,17 @@ def run_case(case, col, bl):
     classes = ['base:%s' % base.get('profile')] + ['patch:' + '/'.join(d[:2] if d[0] != 'field' else (d[0], d[1])) for d in desc]
     classes += ['repl:' + d[2] for d in desc if d[0] == 'field']
     col.case([bi, [list(p) for p in patches]], nontriv, classes)
-    signal.signal(signal.SIGALRM, _alarm)
+    # the budget is CPU time of this process (ITIMER_VIRTUAL), not wall-clock time: a loaded machine must not look like an endless loop
+    signal.signal(signal.SIGVTALRM, _alarm)
     res = None
     for attempt in (1, 2):
-        signal.alarm(30)
+        signal.setitimer(signal.ITIMER_VIRTUAL, 30)
         try:
             res = open_one(data)
             break
         except Alarm:
             if attempt == 2:
-                res = ('C15/timeout-30s', 'open_fp did not return within 30 s (twice) on a %d-byte image' % len(data))
+                res = ('C15/timeout-30s', 'open_fp used 30 s of CPU time (twice) on a %d-byte image' % len(data))
             else:
                 col.bump('alarm-first-attempt')
         except MemoryError:
@@ -508,7 +552,7 @@ def run_case(case, col, bl):
             res = ('C15/memory/while-handling', 'MemoryError while opening a %d-byte image' % len(data))
             break
         finally:
-            signal.alarm(0)         # never leave an alarm pending: it would go off inside the driver
+            signal.setitimer(signal.ITIMER_VIRTUAL, 0)         # never leave a timer pending: it would go off inside the driver
     if res is None:
         col.bump('outcome:ok-or-documented')
     else:
